@@ -38,7 +38,7 @@ suite = re.search(r'(\d+) passed', out)
 caught = [c for c in cl if re.search(r'check %s: violations=[1-9]' % c, out)]
 meta = {
     'breaks_property': prop,
-    'wave': 3,
+    'wave': int(re.sub(r'\D', '', os.path.basename(wave.rstrip('/'))) or 0),
     'origin': 'independent sub-agent given only the property text and a scratch worktree (%s)' % how,
     'needs_to_manifest': needs,
     'caught_by_quick_checks': caught,
